@@ -326,7 +326,7 @@ def _is_sumsq(ctx, lp):
     return True
 
 
-def nf_prove(pairs, hyp=None, subst=None, inv_atoms=False):
+def nf_prove(pairs, hyp=None, subst=None, inv_atoms=False, coef_tol=None):
     """pairs: [(entry, lhs, rhs)].  Returns (ctx, [(entry, ok, msg)]).  Exceptions -> Infra at caller."""
     ctx = poly.Ctx()
     ctx.inv_atoms = inv_atoms
@@ -343,7 +343,10 @@ def nf_prove(pairs, hyp=None, subst=None, inv_atoms=False):
     for entry, l, r in pairs:
         L, R = poly.to_rf(ctx, l), poly.to_rf(ctx, r)
         ok = poly.rf_equal(L, R)
-        out.append((entry, ok, ""))
+        msg = ""
+        if not ok and coef_tol is not None and poly.rf_close(L, R, coef_tol):
+            ok, msg = True, "equal up to rounding of literals (coefficient tolerance %g)" % float(coef_tol)
+        out.append((entry, ok, msg))
     return ctx, out
 
 
